@@ -274,17 +274,24 @@ ODD_GIDS = ['herd "A" // north', 'flock /* b */ "', 'x\\"y"//z']
 # identifiers that look like references to the process environment (the variable IS set while decoding): plain text
 ENV_SIDS = ['price_in_$C18VAR', '${C18VAR}/net', '$HOME', '%C18VAR%', '~user']
 ENV_GIDS = ['herd_$C18VAR', '${HOME}']
+# ... and identifiers that look like pieces of sloppy JSON (a comma before a closing bracket, inside a STRING)
+COMMA_SIDS = ['rows[0,]', 'a,}b', 'x, ]y', '{"k": 1,}', 'tail,\t}']
+COMMA_GIDS = ['g[1, ]', 'set{a,}']
 
 
 def _sid(case, i):
     if case.get('odd_ids') == 'env':
         return ENV_SIDS[i % len(ENV_SIDS)]
+    if case.get('odd_ids') == 'comma':
+        return COMMA_SIDS[i % len(COMMA_SIDS)]
     return ODD_SIDS[i % len(ODD_SIDS)] if case.get('odd_ids') else f's{i}'
 
 
 def _gid(case, g):
     if case.get('odd_ids') == 'env':
         return ENV_GIDS[g % len(ENV_GIDS)]
+    if case.get('odd_ids') == 'comma':
+        return COMMA_GIDS[g % len(COMMA_GIDS)]
     return ODD_GIDS[g % len(ODD_GIDS)] if case.get('odd_ids') else f'g{g}'
 
 
@@ -545,6 +552,7 @@ def cases(tier):
             out.append(dict(base, odd_ids=True))
             out.append(dict(base, odd_ids=True, key_order='sorted'))
             out.append(dict(base, odd_ids='env'))
+            out.append(dict(base, odd_ids='comma'))
             out.append(dict(base, late_model=True))
             out.append(dict(base, late_model=True, hooks={'pre_model': True}))
     # a large description: 60 systems, a group of 1100 agents between an empty group and a small one
